@@ -56,6 +56,15 @@ fn all_results(
     if let Some(v) = inspect.od {
         p = p.od(v.value, v.with_mods);
     }
+    if let Some(l) = inspect.lazer {
+        p = p.lazer(l);
+    }
+    if let Some(n) = inspect.passed_objects {
+        p = p.passed_objects(n);
+    }
+    if let Some(h) = inspect.hardrock_offsets {
+        p = p.hardrock_offsets(h);
+    }
     out.push((format!("{what}: performance(mods)"), score.apply(p).calculate().dump()));
     // attribute builder
     let explicit = map.convert_ref(target, mods).map_err(|e| e.to_string())?;
@@ -86,13 +95,22 @@ fn case_repr(t: &mut Tape, info: &mut CaseInfo) -> Result<(), String> {
         bits |= 64;
     }
     let score = gen_score_spec(t, spec.objects.len() as u32);
+    // the other settings (score origin, clock rate, overrides, prefix) are the same for every representation
+    let mut others = crate::gen::diff::gen_diff(t, &crate::gen::diff::DiffProfile::realistic().passed(spec.objects.len() as u32), target);
+    others.mods = ModsSpec::nomod();
+    let with_others = |mods: &GameMods| -> Difficulty {
+        let mut o = others.clone();
+        o.mods = ModsSpec::nomod();
+        o.build(target).mods(mods.clone())
+    };
     let map = spec.decode();
     map_labels(&spec, info);
     info.label(format!("target={target:?}"));
+    info.label_if(others.lazer == Some(false), "stable-origin");
     let incompatible = (bits & HR != 0 && bits & EZ != 0) || (bits & DT != 0 && bits & HT != 0);
     info.label_if(incompatible, "incompatible-selection");
     if info.want_sample {
-        info.sample = Some(json!({"map": spec.sample(), "target": mode_name(target), "bits": bits, "acronyms": GameModsIntermode::from_bits(bits).to_string(), "score": score.describe()}));
+        info.sample = Some(json!({"map": spec.sample(), "target": mode_name(target), "bits": bits, "acronyms": GameModsIntermode::from_bits(bits).to_string(), "other_settings": others.describe(), "score": score.describe()}));
     }
     let mut base: Option<Vec<(String, crate::canon::Dump)>> = None;
     let mut nomod_differs = false;
@@ -103,11 +121,11 @@ fn case_repr(t: &mut Tape, info: &mut CaseInfo) -> Result<(), String> {
             continue;
         }
         let mods = ms.build(target);
-        let d = Difficulty::new().mods(mods.clone());
+        let d = with_others(&mods);
         let res = all_results(&format!("{repr:?}"), &d, &map, target, &score, &mods)?;
         match &base {
             None => {
-                let nm = all_results("NoMod", &Difficulty::new(), &map, target, &score, &GameMods::default())?;
+                let nm = all_results("NoMod", &with_others(&GameMods::default()), &map, target, &score, &GameMods::default())?;
                 nomod_differs = nm.iter().zip(&res).any(|(a, b)| a.1.diff(&b.1).is_some());
                 base = Some(res);
             }
@@ -211,7 +229,7 @@ pub fn property() -> Property {
         subchecks: vec![
             SubCheck {
                 name: "mod-representations",
-                rule: "G-MAP (all modes + converts, <=30 objects) x legacy-representable mod bits (subsets of NF EZ TD HD HR DT NC HT FL SO RX AP incl. a share of incompatible selections, NC always as 576, key mods 1K-9K) x score spec. Oracle: difficulty, strains, performance (settings via Difficulty and via Performance::mods), BeatmapAttributesBuilder::mods(..).build()/hit_windows() are same-value-equal for u32, GameModsLegacy, GameModsIntermode, &GameModsIntermode and lazer intermode.try_with_mode(mode) (lazer leg skipped and labelled when the mode lacks a mod). Non-trivial: mods != NoMod and some result differs from the NoMod result.",
+                rule: "G-MAP (all modes + converts, <=30 objects) x legacy-representable mod bits (subsets of NF EZ TD HD HR DT NC HT FL SO RX AP incl. a share of incompatible selections, NC always as 576, key mods 1K-9K) x the remaining settings (lazer flag unset/true/false, clock rate, overrides, hardrock_offsets, passed_objects; identical for every representation) x score spec. Oracle: difficulty, strains, performance (settings via Difficulty and via Performance::mods), BeatmapAttributesBuilder::mods(..).build()/hit_windows() are same-value-equal for u32, GameModsLegacy, GameModsIntermode, &GameModsIntermode and lazer intermode.try_with_mode(mode) (lazer leg skipped and labelled when the mode lacks a mod). Non-trivial: mods != NoMod and some result differs from the NoMod result.",
                 quick: 6000,
                 thorough: 100_000,
                 tape_len: 1400,
